@@ -4123,7 +4123,7 @@ local Bool
 scoUndoStabEntry(StabEntry stent)
 {
 	SymeList	osymes, nsymes;
-	Length		oldLength;
+	Length		oldLength, i;
 
 	if (!stent) return false;
 
@@ -4133,9 +4133,20 @@ scoUndoStabEntry(StabEntry stent)
 	nsymes = listFreeIfSat(Syme)(osymes, scoUndoSyme, isNewSyme);
 	stent->symev[0] = nsymes;
 
+	/* The meanings being taken back are also held by the conditional
+	 * slots and by the pending list. */
+	for (i = 1; i < stent->argc; i += 1)
+		stent->symev[i] = listFreeIfSat(Syme)
+			(stent->symev[i], scoUndoSyme, isNewSyme);
+	stent->pending = listFreeIfSat(Syme)
+		(stent->pending, scoUndoSyme, isNewSyme);
+
 	if (listLength(Syme)(nsymes) != oldLength) {
-		tpossFree(stent->possv[0]);
-		stent->possv[0] = NULL;
+		/* Every cached set of possible types was computed with them. */
+		for (i = 0; i < stent->argc; i += 1) {
+			tpossFree(stent->possv[i]);
+			stent->possv[i] = NULL;
+		}
 	}
 
 	return (nsymes == listNil(Syme));
